@@ -550,6 +550,12 @@ func TestSets(t *testing.T) {
 	// element types with values that are not equal to themselves: whatever a set makes of NaN members, Clear empties it
 	for _, vals := range [][]float64{{math.NaN()}, {1.5, math.NaN(), 2.5}, {math.NaN(), math.NaN()}, {math.Inf(1), math.NaN(), 0}} {
 		fs := container.NewMapSet(vals...)
+		// Len, Values and Range agree about a set with NaN members
+		seenByRange := 0
+		fs.Range(func(float64) bool { seenByRange++; return true })
+		if seenByRange != fs.Len() || len(fs.Values()) != fs.Len() || fs.Len() != len(vals) {
+			r.Violation(fmt.Sprintf("mapset-nan-range:%v", vals), fmt.Sprintf("MapSet[float64] of %v: Len=%d, Values has %d elements, Range yields %d", vals, fs.Len(), len(fs.Values()), seenByRange), map[string]any{"nan_set": len(vals)})
+		}
 		cl := fs.Clone()
 		fs.Clear()
 		calls := 0
